@@ -37,6 +37,9 @@ type TsContent struct {
 	VType    int // stream_type of the video track (0x1b AVC, 0x24 HEVC)
 	AType    int
 	Problems []string
+	// OpusNoControlHeader: the audio PES payloads of a private-stream (0x06) audio track do not start with the
+	// opus_control_header every Opus access unit in a transport stream begins with; they were taken as raw packets
+	OpusNoControlHeader bool
 }
 
 func isAvcParamOrAud(n []byte) (param, aud bool) {
@@ -125,6 +128,17 @@ func ParseTs(b []byte) *TsContent {
 				for i, f := range frames {
 					tc.Audio = append(tc.Audio, TsAudio{PTS: p.PTS, InPes: i, Adts: f, Data: f.Data, Pkt: p.FirstPkt})
 				}
+			} else if tc.AType == 0x06 {
+				// Opus in MPEG-TS: each access unit = opus_control_header (11-bit prefix 0x3ff, trim / extension flags,
+				// au_size as 0xff... bytes + final byte, optional trims) followed by the Opus packet
+				aus, ok := splitOpusTs(p.Data)
+				if !ok {
+					tc.OpusNoControlHeader = true
+					tc.Audio = append(tc.Audio, TsAudio{PTS: p.PTS, Data: p.Data, Pkt: p.FirstPkt})
+				}
+				for i, a := range aus {
+					tc.Audio = append(tc.Audio, TsAudio{PTS: p.PTS, InPes: i, Data: a, Pkt: p.FirstPkt})
+				}
 			} else {
 				tc.Audio = append(tc.Audio, TsAudio{PTS: p.PTS, Data: p.Data, Pkt: p.FirstPkt})
 			}
@@ -133,6 +147,46 @@ func ParseTs(b []byte) *TsContent {
 		}
 	}
 	return tc
+}
+
+// splitOpusTs splits a PES payload into Opus packets following the Opus-in-TS access unit syntax.
+func splitOpusTs(b []byte) (out [][]byte, ok bool) {
+	for len(b) > 0 {
+		if len(b) < 3 || b[0] != 0x7f || b[1]&0xe0 != 0xe0 {
+			return nil, false
+		}
+		startTrim, endTrim, ext := b[1]&0x10 != 0, b[1]&0x08 != 0, b[1]&0x04 != 0
+		i := 2
+		size := 0
+		for {
+			if i >= len(b) {
+				return nil, false
+			}
+			size += int(b[i])
+			i++
+			if b[i-1] != 0xff {
+				break
+			}
+		}
+		if startTrim {
+			i += 2
+		}
+		if endTrim {
+			i += 2
+		}
+		if ext {
+			if i >= len(b) {
+				return nil, false
+			}
+			i += 1 + int(b[i])
+		}
+		if i+size > len(b) {
+			return nil, false
+		}
+		out = append(out, b[i:i+size])
+		b = b[i+size:]
+	}
+	return out, true
 }
 
 // expectedVideoNals is what a TS consumer must find for a published video unit: its NAL units minus
